@@ -53,6 +53,13 @@ func eqRes(a, b TxResult) bool {
 func replayRecording(rec *Recording, opts lab.NodeOpts, withCrashes bool, label string) (msg string, stats map[string]int) {
 	stats = map[string]int{}
 	known := LoadedKnown()
+	if opts.TZOffsetH != 0 {
+		// this node's machine is in another time zone (the process-wide time.Local; cases run one after the other)
+		old := time.Local
+		time.Local = time.FixedZone(fmt.Sprintf("UTC%+d", opts.TZOffsetH), opts.TZOffsetH*3600)
+		defer func() { time.Local = old }()
+		stats["node-in-another-time-zone"]++
+	}
 	freshProcess := false // no block has been committed since the last restart
 	b, err := lab.New(rec.Gen, opts)
 	if err != nil {
@@ -269,6 +276,7 @@ func genNodeOpts(t *rapid.T) lab.NodeOpts {
 		Noise:           pick(t, []int{0, 1, 2, 2}, "noise"),
 		RestartEvery:    oneIn(t, 4, "restartEvery"),
 		InvCheckPeriod:  uint(pick(t, []int{0, 0, 1, 3}, "invCheckPeriod")),
+		TZOffsetH:       pick(t, []int{0, 0, 0, 5, -5, 14, -12, 9}, "tzOffsetH"),
 	}
 }
 
